@@ -80,7 +80,36 @@ def gen_sibling(rng):
     t = p.op(rng.choice(["scale", "square"]), [x], **({"c": 2} if False else {})) if False else None
     t = p.op("scale", [x], c=rng.choice([2, 3])) if rng.random() < 0.5 else p.op("square", [x])
     outs = p.op("unbind", [t])
-    if rng.random() < 0.5:
+    v = rng.random()
+    if v < 0.3:
+        # CHAINS OF SINGLE-INPUT FUNCTIONS across a multi-output node, where the output number changes along
+        # the chain: (i) the feature is output >= 1 of the trunk's unbind and a head reaches it through
+        # sum / square only (scaled by a 0-d parameter at the very end); (ii) the feature is single-output and
+        # a head unbinds a function of it and uses output >= 1.  No path around: must be accepted.
+        losses = []
+        if rng.random() < 0.5:
+            feat = outs[rng.randrange(1, len(outs))]
+            feats = [feat]
+            for ti in range(rng.randint(1, 2)):
+                a = feat
+                for _ in range(rng.randint(0, 2)):
+                    a = p.op("square", [a])
+                q = p.leaf((), [rng.choice([-2, 2, 3])], True)
+                losses.append(p.op("mul", [p.op("sum", [a]), q]))
+        else:
+            feats = [t]
+            for ti in range(rng.randint(1, 2)):
+                a = t
+                for _ in range(rng.randint(0, 1)):
+                    a = p.op("square", [a])
+                hs = p.op("unbind", [a])
+                b = hs[rng.randrange(1, len(hs))]
+                for _ in range(rng.randint(0, 1)):
+                    b = p.op("square", [b])
+                w = p.leaf((2,), [rng.randint(-2, 2) for _ in range(2)], True)
+                losses.append(p.op("sum", [p.op("mul", [b, w])]))
+        return p, feats, losses
+    if v < 0.6:
         # SEVERAL features that are sibling outputs of one node (encoder(x).chunk / unbind / an RNN's
         # (output, h_n)), one or more heads per feature and no path around: every sibling's gradient edge
         # is excluded, the defaults do not overlap and the call must be accepted
